@@ -92,6 +92,11 @@ class OccupancyEvent(general._Event):
         # If data is passed in as an int then it needs to be decoded into
         # various flags and stored as an EventData named tuple
         if isinstance(set_data, int):
+            # Only the lowest 4 bits are defined, the other bits must be zero
+            if set_data < 0 or set_data > 0b1111:
+                raise ValueError(
+                    "OccupancyEvent 'data' must be in the range 0..15"
+                )
             # Bit 0: "movement detected" = 1, "movement not detected" = 0
             movement = set_data & 0b0001 == 0b0001
 
